@@ -78,7 +78,8 @@ var vTokens = []string{"0", "1", "-1", "+5", "007", "0x10", "1e3", "1.5", "-0", 
 	"١", "１", "０", "1e", "e1", ".", "-", "+", "--1", "1__0", "_1", "1_", "0_1", "0.1e-1", "1E5", "3.0", "-0.0", "+0", "\x00", "\xff\xfe", "a,b", ",", "1,", ",1", "=", "-x", "--", strings.Repeat("9", 300), strings.Repeat("1", 40) + ".5",
 	"000000000000000000042", "+00000000000000000000007", "-000000000000000000000", "0000000000000000000000.50", "08", "09", "010", "0100", "$HOME", "$1", "a$b", "${x}", "100%", "%d", "caf\xe9.txt",
 	// tokens that are complete Go literals: bound byte for byte, never unquoted
-	"\\d+", "\\\\server\\share", "\\", "\\5", "\"quoted\"", "\"a\\tb\"", "`raw`", "'x'", "\"\"", "\"1\"", "2147483648", "-2147483649", "4294967296", "1700000000000", "3.4e39", "1e39", "16777217"}
+	"\\d+", "\\\\server\\share", "\\", "\\5", "\"quoted\"", "\"a\\tb\"", "`raw`", "'x'", "\"\"", "\"1\"", "2147483648", "-2147483649", "4294967296", "1700000000000", "3.4e39", "1e39", "16777217",
+	"+-5", "++5", "-+5", "+-0", "+ 5", "+.5", "++1.5", "1;2", "a;b", "1|2", "1/2", "1 2"}
 
 // mostly valid tokens (C06)
 var vPlain = map[vkind][]string{
@@ -91,9 +92,10 @@ type vcase struct {
 	Role    string   `json:"role"` // option | argument
 	Decl    string   `json:"declared_with"`
 	Default []string `json:"default"`
-	EnvVars []string `json:"env_vars"`                         // name=value | name (unset)
-	Hide    bool     `json:"hide_value,omitempty"`             // HideValue: only the help may differ
-	Tail    bool     `json:"options_group_and_tail,omitempty"` // option declared under [OPTIONS] [TAIL...] with one more positional on the line
+	EnvVars []string `json:"env_vars"`                               // name=value | name (unset)
+	Hide    bool     `json:"hide_value,omitempty"`                   // HideValue: only the help may differ
+	Tail    bool     `json:"options_group_and_tail,omitempty"`       // option declared under [OPTIONS] [TAIL...] with one more positional on the line
+	After   bool     `json:"options_after_the_positional,omitempty"` // spec [OPTIONS] TAIL [OPTIONS], the option tokens written after the positional
 	Cli     []string `json:"command_line_values"`
 	Argv    []string `json:"argv"`
 
@@ -157,6 +159,9 @@ func (v *vcase) finish() {
 		}
 		if v.Tail {
 			v.Argv = append(v.Argv, "tail-1")
+		}
+		if v.After {
+			v.Argv = append([]string{"tail-1"}, v.Argv...)
 		}
 	}
 }
@@ -459,6 +464,11 @@ func (v *vcase) run() (o vobs) {
 	case v.Tail:
 		app.StringsArg("TAIL", nil, "")
 		app.Spec = "[OPTIONS] [TAIL...]"
+	case v.After:
+		// (with a value from the environment the option is already satisfied in front of TAIL: what the command line
+		// gives behind it counts all the same)
+		app.StringArg("TAIL", "", "")
+		app.Spec = "[OPTIONS] TAIL [OPTIONS]"
 	default:
 		app.Spec = "[--xx...]"
 	}
@@ -472,6 +482,8 @@ func (v *vcase) run() (o vobs) {
 			first = []string{"app", "--", pre}
 		} else if v.Tail {
 			first = append(first, "tail-0")
+		} else if v.After {
+			first = []string{"app", "tail-0", "--xx=" + pre}
 		}
 		app.Run(first)
 		o.ran, o.got, o.sbu = false, nil, false
@@ -506,6 +518,7 @@ func genValueCase(r *rand.Rand, wide bool) *vcase {
 	}
 	v.Hide = r.Intn(5) == 0
 	v.Tail = !v.asArg && r.Intn(4) == 0
+	v.After = !v.asArg && !v.Tail && r.Intn(4) == 0
 	nenv := r.Intn(4)
 	envStyle := []string{"VPT_%d", "VPT_%d", "vpt_%d", "Vpt_miXed_%d"}[r.Intn(4)] // names are case-sensitive and used as written
 	for e := 0; e < nenv; e++ {
@@ -532,7 +545,10 @@ func genValueCase(r *rand.Rand, wide bool) *vcase {
 				}
 				val = strings.Join(ps, ",")
 				if r.Intn(10) == 0 {
-					val = tok() + ":" + tok() // a colon is no list separator
+					val = tok() + []string{":", ";", ";", "|", "\t"}[r.Intn(5)] + tok() // the comma is the only list separator
+					if r.Intn(2) == 0 {
+						val += "," + tok()
+					}
 				} else if r.Intn(12) == 0 {
 					val = "[" + val + "]" // brackets are characters like any other
 				}
@@ -628,7 +644,7 @@ func init() {
 		Title:     "Value precedence: command line, then environment, then default",
 		Technique: "runtime monitor reading every built-in variable inside the Action, judged by a value model (strconv + precedence rules) over generated declaration/environment/command-line combinations",
 		Rule: "a case is (one of the seven built-in types, option or argument, declaration entry point struct/Ptr/short form, default (multi-valued: 0-2 elements), a list of 0-3 environment variables each unset / empty / valid / invalid " +
-			"(multi-valued: comma lists with blanks and empty elements), 0-3 command-line values); tokens mostly valid, one in six from the edge-case pool. Oracle (DESIGN 3.7): command-line values if any (multi: exactly those, single: the last), " +
+			"(multi-valued: comma lists with blanks and empty elements; `;`, `:`, `|` and tabs are no separators), 0-3 command-line values, options under `[--xx...]`, `[OPTIONS] [TAIL...]` or `[OPTIONS] TAIL [OPTIONS]` with the tokens behind the positional); tokens mostly valid, one in six from the edge-case pool. Oracle (DESIGN 3.7): command-line values if any (multi: exactly those, single: the last), " +
 			"else the first listed variable that is non-empty and valid, else the default; floats compared bitwise. non-trivial = at least two of {default non-empty, some variable set, command-line value} present; distinct by the whole case.",
 		Assumptions: []string{"strconv is the conversion oracle (C13 checks that agreement on its own)", "known finding D5 (invalid list in the environment wipes a non-empty Ints/Floats64 default) is matched by predicate, see KNOWN_FINDINGS.txt"},
 		Cases:       tiered(100000, 3000000),
